@@ -200,6 +200,11 @@ class HierDictDocument(DictDocument):
                                           and not issubclass(cls, ByteArray)):
             raise ValidationError([key, inst])
 
+        # binary data can come in chunks, but not in chunks of something else
+        elif isinstance(inst, (list, tuple)) and not all(
+                  isinstance(c, self.VALID_UNICODE_SOURCES) for c in inst):
+            raise ValidationError([key, inst])
+
     def _from_dict_value(self, ctx, key, cls, inst, validator):
         if validator is self.SOFT_VALIDATION:
             self.validate(key, cls, inst)
